@@ -325,8 +325,13 @@ Ev(m, t, env, x, lc, fuel) ==
     [] t.k = "break" ->
          LET i == FindB(env, {"lbl"}, t.x) IN IF i = 0 THEN End(UnsupT) ELSE End(BrkT(env[i].id))
     [] t.k = "fold" ->
+         \* The manual defines a fold through the outputs of xs and does not order the start of xs against init.
+         \* When init yields nothing before it ends and xs ends (by an error, halt, break or divergence) before
+         \* its first output, which of the two ends is observed is left open.
          LET xs == Bind(RunV(t.xs), LAMBDA y : BindPat(t.pat, env, env, y.v, lc, fuel))
-         IN Bind(R(t.init, x), LAMBDA i : FoldRun(m, t, xs, 1, i, env, lc, fuel))
+             ini == R(t.init, x)
+         IN IF ini.o = <<>> /\ xs.o = <<>> /\ ~IsOk(xs) /\ xs.e # ini.e THEN End(UnkT)
+            ELSE Bind(ini, LAMBDA i : FoldRun(m, t, xs, 1, i, env, lc, fuel))
     [] t.k = "try" ->
          \* paths mode (manual): try path(f) catch (g | error)
          LET s == R(t.f, x)
